@@ -71,7 +71,15 @@ fn slice_ranges(
         };
 
         let step = steps.map(|s| s[i]).unwrap_or(1);
-        let range = SliceRange::new(*start as isize, Some(*end as isize), step as isize);
+
+        // Per spec, when slicing backwards a start before the first element
+        // is clamped to the first element.
+        let start = if step < 0 {
+            (*start as isize).max(-(input_shape[axis] as isize))
+        } else {
+            *start as isize
+        };
+        let range = SliceRange::new(start, Some(*end as isize), step as isize);
 
         // ONNX models represent ranges that are unbounded on one side by using
         // `INT_MAX` or `INT_MIN` (when slicing backwards with negative steps)
